@@ -268,10 +268,11 @@ def base64url_decode(data: str) -> str:
         # thus we simply always append two padding characters (==).
         # See also: https://stackoverflow.com/a/49459036/4780052
         decoded = base64.urlsafe_b64decode(data + "==").decode(BASE64URL_ENCODING)
-    except binascii.Error:
-        raise BadRequest(f"Encoded data {data} is invalid base64url!")
     except UnicodeDecodeError:
         raise BadRequest(f"Encoded base64url value is not a valid {BASE64URL_ENCODING} string!")
+    except (binascii.Error, ValueError):
+        # urlsafe_b64decode() raises a plain ValueError for a string with non-ASCII characters
+        raise BadRequest(f"Encoded data {data} is invalid base64url!")
     return decoded
 
 
